@@ -309,7 +309,10 @@ var composites = map[string]compositeSpec{
 var ignoredCalls = map[string]bool{}
 
 // calls that only observe (logging, metrics, printing): statements calling them are skipped
-var ignoredPrefixes = []string{"telemetry.", "fmt.Print", "log.", "k.Logger", "ctx.Logger", "sdkCtx.Logger", "logger."}
+// textTypes: Go types of buffers that only ever hold human-readable text
+var textTypes = map[string]bool{"strings.Builder": true, "bytes.Buffer": true}
+
+var ignoredPrefixes = []string{"telemetry.", "fmt.Print", "fmt.Fprint", "log.", "k.Logger", "ctx.Logger", "sdkCtx.Logger", "logger."}
 
 // goTypeNames: Go type expressions (as rendered) -> Lean types, for map literals
 var goTypeNames = map[string]LT{"inOutCoins": "IOC", "int64": "Int", "string": "Acc", "math.Int": "Int", "*BidderMatchResult": "BRes", "*types.BidderMatchResult": "BRes", "uint64": "Int", "bool": "Bool"}
